@@ -271,6 +271,7 @@ var c12kindNames = map[int]string{
 	11: "thrift.GetByPath", 12: "thrift.PathNode.Load+Marshal", 13: "thrift.MarshalTo", 14: "thrift.descriptor-lookups",
 	15: "proto.GetByPath", 16: "proto.PathNode.Load+Marshal", 17: "proto.MarshalTo", 18: "proto.descriptor-lookups",
 	19: "thrift.BinaryProtocol(pooled).WriteAnyWithDesc", 20: "thrift.ReadAnyWithDesc", 21: "thrift.Skip",
+	22: "j2t.Do(http-mapped, ctx request)",
 }
 
 func c12msg(err error) string {
@@ -835,6 +836,98 @@ func c12buildWorld(r *rng) *c12world {
 				out, err := hj.Do(ctx, req, hopts)
 				return c12out{data: out, err: err != nil, keep: [][]byte{out}}
 			})
+		}
+	}
+
+	// http-mapped j2t through BinaryConv.Do with the request in the context (gateway style): EnableHttpMapping with
+	// ReadHttpValueFallback on/off and TracebackRequredOrRootFields on/off, several DESCRIPTORS sharing the pooled native
+	// state machine, valid requests and requests that FAIL on a required field that is absent from the JSON body and from
+	// the http request (the failing call leaves unmatched field ids in J2TStateMachine.FieldCache: whatever is left in the
+	// pooled object must not reach the next conversion)
+	{
+		const gwIDL = `namespace go c12gw
+struct GReq {
+    1: required string A,
+    2: optional string B,
+}
+struct GOther {
+    1: string X,
+    2: optional string Y,
+}
+struct GInner {
+    1: required string P,
+    2: i32 Q,
+}
+struct GNest {
+    1: GInner In,
+    2: required i64 R,
+    3: optional string S (api.query = "s"),
+    4: string T (api.header = "t"),
+}
+service GSvc {
+    string Call(1: GReq req)
+    string Call2(1: GOther req)
+    string Call3(1: GNest req)
+}
+`
+		gsvc, err := thrift.Options{}.NewDescritorFromContent(ctx, "c12gw.thrift", gwIDL, map[string]string{}, false)
+		if err != nil {
+			die("C12: gateway idl: %v", err)
+		}
+		gReq := gsvc.Functions()["Call"].Request().Struct().FieldById(1).Type()
+		gOther := gsvc.Functions()["Call2"].Request().Struct().FieldById(1).Type()
+		gNest := gsvc.Functions()["Call3"].Request().Struct().FieldById(1).Type()
+		w.addDump(func() []byte { return c12dumpThriftDesc(gReq) }, func() []byte { return c12dumpThriftDesc(gOther) }, func() []byte { return c12dumpThriftDesc(gNest) })
+		gwOpts := []conv.Options{
+			{EnableHttpMapping: true, ReadHttpValueFallback: true, TracebackRequredOrRootFields: true},
+			{EnableHttpMapping: true, WriteDefaultField: true},
+			{EnableHttpMapping: true, ReadHttpValueFallback: true},
+			{EnableHttpMapping: true, TracebackRequredOrRootFields: true, WriteOptionalField: true},
+			{EnableHttpMapping: true, ReadHttpValueFallback: true, TracebackRequredOrRootFields: true, WriteRequireField: true, WriteDefaultField: true},
+		}
+		var gwcvs []*j2t.BinaryConv
+		for _, o := range gwOpts {
+			c := j2t.NewBinaryConv(o)
+			gwcvs = append(gwcvs, &c)
+		}
+		type gdoc struct {
+			desc *thrift.TypeDescriptor
+			js   string
+			url  string
+			fail bool // required field absent from the body AND from the request
+		}
+		gdocs := []gdoc{
+			{gReq, `{"A":"a","B":"b"}`, "http://localhost/gw", false},
+			{gReq, `{"A":"a2"}`, "http://localhost/gw?B=fromquery", false},
+			{gReq, `{"B":"b"}`, "http://localhost/gw?A=fromquery", false}, // required A comes from the request
+			{gReq, `{"B":"b"}`, "http://localhost/gw", true},
+			{gReq, `{}`, "http://localhost/gw", true},
+			{gReq, `{"B":"b","zzz":1}`, "http://localhost/gw?C=1", true},
+			{gOther, `{"X":"x","Y":"y"}`, "http://localhost/gw", false},
+			{gOther, `{"Y":"y"}`, "http://localhost/gw", false},
+			{gOther, `{}`, "http://localhost/gw?X=qx", false},
+			{gNest, `{"In":{"P":"p","Q":5},"R":7,"T":"t"}`, "http://localhost/gw?s=qs", false},
+			{gNest, `{"In":{"P":"p"},"R":7}`, "http://localhost/gw", false},
+			{gNest, `{"In":{"Q":5},"R":7}`, "http://localhost/gw", true},           // inner required P absent everywhere
+			{gNest, `{"In":{"P":"p","Q":5},"T":"t"}`, "http://localhost/gw", true}, // outer required R absent everywhere
+			{gNest, `{"In":{"Q":1}}`, "http://localhost/gw?P=qp&R=9", false},
+		}
+		for di, gd := range gdocs {
+			gd := gd
+			js := w.in.add(fmt.Sprintf("gw-json-%d", di), []byte(gd.js))
+			for ci := range gwcvs {
+				cv := gwcvs[ci]
+				w.addOp(22, fmt.Sprintf("j2t.Do(http-mapped) doc%d opt%d", di, ci), gd.fail, func() c12out {
+					req, err := dhttp.NewHTTPRequestFromUrl("GET", gd.url, nil)
+					if err != nil {
+						return c12out{err: true, data: []byte("newrequest")}
+					}
+					req.Request.Header.Set("t", "ht")
+					hctx := context.WithValue(ctx, conv.CtxKeyHTTPRequest, req)
+					out, err := cv.Do(hctx, gd.desc, js)
+					return c12out{data: out, err: err != nil, keep: [][]byte{out}, msg: c12msg(err)}
+				})
+			}
 		}
 	}
 
@@ -1428,7 +1521,7 @@ func (w *c12world) errorExits(r *rng) {
 					good = 0
 					c12report("C12-MISMATCH what=error-exit op=%q", w.ops[i].name)
 				}
-				if r.chance(25) && len(okByKind[k]) > 0 {
+				if r.chance(50) && len(okByKind[k]) > 0 {
 					j := okByKind[k][r.intn(len(okByKind[k]))]
 					res := c12call(w.ops[j].run)
 					calls++
@@ -1488,6 +1581,15 @@ func genC12(r *rng, n int) {
 		}
 		if len(mix) > 0 {
 			// focused round
+		} else if round%6 == 4 {
+			// gateway rounds: only the http-mapped j2t operations (ctx request + HTTPConv), failing and valid requests of
+			// several descriptors interleaved on every goroutine, so that a pooled state machine left behind by a failing
+			// conversion is picked up by a valid one
+			for i, op := range w.ops {
+				if op.kind == 22 || op.kind == 5 {
+					mix = append(mix, i)
+				}
+			}
 		} else if round%3 == 0 {
 			for i := range w.ops {
 				mix = append(mix, i)
@@ -1495,7 +1597,7 @@ func genC12(r *rng, n int) {
 		} else {
 			sel := map[int]bool{}
 			for len(sel) < 3+r.intn(5) {
-				sel[1+r.intn(21)] = true
+				sel[1+r.intn(22)] = true
 			}
 			for i, op := range w.ops {
 				if sel[op.kind] {
